@@ -1,9 +1,11 @@
 mod c0103;
+mod c05;
 mod c18;
 mod common;
 mod extract;
 mod gramsweep;
 mod pda;
+mod pspace;
 mod reallayer;
 mod rustrun;
 mod refgram;
@@ -38,6 +40,7 @@ fn main() {
                 "C01" => c0103::run(&ctx, "C01"),
                 "C02" => c0103::run(&ctx, "C02"),
                 "C03" => c0103::run(&ctx, "C03"),
+                "C05" => c05::run(&ctx),
                 "C04" => gramsweep::run_c04(&ctx),
                 "C11" => gramsweep::run_c11(&ctx),
                 "C17" => gramsweep::run_c17(&ctx),
